@@ -69,7 +69,8 @@ def m1_generate(rep, tier):
     rep.notes.append('M1 generator machine, all draws: %d states' % res['distinct'])
 
 
-def collect(rep, pool, tier, seed, perturb, nseeds, maxn=2, rich=False, sim=None, label='', counts=None, types=None):
+def collect(rep, pool, tier, seed, perturb, nseeds, maxn=2, rich=False, sim=None, label='', counts=None, types=None,
+            only_twosided=False):
     """Runs MC_Gen, replays vectors, returns list of traces of accepted runs."""
     traces = []
     seen = set()
@@ -86,6 +87,8 @@ def collect(rep, pool, tier, seed, perturb, nseeds, maxn=2, rich=False, sim=None
         if k in seen:
             return False
         seen.add(k)
+        if only_twosided and 'twopl' not in rec['given']:
+            return False
         h = int(hashlib.sha1(k.encode()).hexdigest()[:6], 16)
         rec['_seeds'] = [seed * 1000 + h % 997 + i for i in range(nseeds)]
         return True
@@ -105,7 +108,8 @@ def validate(rep, traces, own):
     B = 4000
     for i in range(0, len(traces), B):
         chunk = traces[i:i + B]
-        slim = [{'args': t['args'], 'listing': t['listing'], 'files': t['files']} for t in chunk]
+        slim = [{'args': t['args'], 'listing': t['listing'], 'files': t['files'],
+                 'blocks': [gendrive.parse_block(f) for f in t['files']]} for t in chunk]
         verdicts, res = gendrive.validate_traces(slim, rep.pid)
         rep.add_tlc(tlc.stats_of(res))
         for t, v in zip(chunk, verdicts):
@@ -113,9 +117,9 @@ def validate(rep, traces, own):
             fails = set(v['fails'])
             names = ['structure', 'header_counts', 'lines_numbered', 'project_line_fields', 'param_block', 'parens', 'lists', 'ties',
                      'quotas_spread', 'second_side_iff_twosided', 'file_count', 'file_names', 'second_side_exactly_rankers',
-                     'spec_rejects_accepted_run']
+                     'spec_rejects_accepted_run', 'param_block_echo']
             for nme in names:
-                prop = 'C12' if nme in C12_CLAUSES else ('C15' if nme == 'spec_rejects_accepted_run' else 'C08')
+                prop = 'C12' if nme in C12_CLAUSES else ('C15' if nme == 'spec_rejects_accepted_run' else ('X' if nme == 'param_block_echo' else 'C08'))
                 ok = nme not in fails
                 rep.clause(nme if prop in own else prop + '.' + nme, ok, key='%s seed=%s | %s' % (t['key'], t['seed'], nme),
                            what='generated file violates clause %s: %r' % (nme, bytes(t['files'][0]).decode('latin-1') if t['files'] else ''),
